@@ -346,6 +346,19 @@ def gen_model(seed, nns=None, allow_cr=False, with_methods=True,
                             'props': [{'name': 'Extra', 'type': 'string',
                                        'key': False, 'array': False}],
                             'methods': [], 'assoc': True, 'desc': None})
+    # reference-typed method parameters (scalar and array), from a stream of
+    # their own
+    rx = stream(seed, 'model-refparams')
+    for ci, c in enumerate(classes):
+        for m in c['methods']:
+            if rx.random() < 0.4:
+                m['params'].append({
+                    'name': 'RefP', 'type': 'reference',
+                    'array': rx.random() < 0.6, 'in': True,
+                    'out': rx.random() < 0.3,
+                    # (the mock wants the referenced class to exist)
+                    'ref': rx.choice([x for x in classes[:ci + 1]
+                                      if not x['assoc']])['name']})
     model = {'seed': seed, 'namespaces': namespaces, 'classes': classes,
              'instances': {}}
     cmap = {c['name']: c for c in classes}
